@@ -368,6 +368,9 @@ func ruleR35(c *Ctx) {
 							}
 							if kv := identVar(info, x.Results[0]); kv != nil {
 								keyVars[kv] = true
+								if isConstBool(info, x.Results[2], true) && c.defCallOf(u, kv) == nil {
+									okAll, why = false, "a key is reported as found that is not the result of restoreKey"
+								}
 							} else if call, ok := ast.Unparen(x.Results[0]).(*ast.CallExpr); ok {
 								checkKeyCall(call)
 							}
